@@ -284,6 +284,7 @@ def compare (o : Obs) (t : Tab) (σ : State String) : Option String :=
 
 structure DState where
   lineSize : Int := 64
+  memSize : Int := 0
   tab : Tab := {}
   refOn : Bool := false
   first : Bool := true
@@ -318,7 +319,10 @@ def handleSnapshot (d : DState) (secs : List String) : DState × String :=
       { t with known := b :: t.known
                mem := t.mem.setIfInBounds i (((o.next.find? fun p => p.1 == Int.ofNat b).map (·.2)).getD "") }
     | none => t) t
-  if fresh.any (fun b => (t.slot b).isNone) || (rawBases o).any (fun b => decide (b < 0)) then
+  if fresh.any (fun b => (t.slot b).isNone) ||
+     (rawBases o).any (fun b => decide (b < 0) || (decide (0 < d.memSize) && decide (d.memSize < b + d.lineSize))) then
+    -- an access outside the memory (garbage address register): fetches pad with zeros, write-backs are
+    -- dropped, the run ends in an index panic — outside the property's domain and the model
     ({ d with refOn := false }, verdict ++ " ref=skip:wild-address")
   else if o.cmds.any (fun (c, b, k) => k ≤ 2 && o.stateOf c b.toNat == 0) then
     -- MVP-8 only: `evictL1ExtraCacheLine` sends an evict command for a victim whose state is Invalid
@@ -362,7 +366,7 @@ def handle (d : DState) (line : String) : DState × String :=
     let n := natOf' ((getKV kv "cores").getD "0")
     let lsz := natOf' ((getKV kv "lsz").getD "64")
     let l1n := natOf' ((getKV kv "l1n").getD "16")
-    ({ lineSize := Int.ofNat lsz, tab := Tab.new n lsz l1n, refOn := true, first := true }, "run")
+    ({ lineSize := Int.ofNat lsz, memSize := Int.ofNat (natOf' ((getKV kv "mem").getD "0")), tab := Tab.new n lsz l1n, refOn := true, first := true }, "run")
   | ["S", _, _] => handleSnapshot d (secs.drop 1)
   | ["P", _, _] =>
     let o := parseObs (secs.drop 1)
